@@ -283,10 +283,11 @@ def is_keyboard_walk(seg):
 def char_classes(seg):
     return {('a' if c.isalpha() else 'd' if c.isdigit() else 's') for c in seg}
 
-def mw_tally(history, min_len=4, max_len=21):
-    """My own tally of the multi-word detector's training history: alpha runs (>= min_len) of the lower-cased passwords of admissible length."""
+def mw_tally(history, min_len=4, max_len=21, pretrained=(), threshold=5):
+    """My own tally of the multi-word detector's training history: alpha runs (>= min_len) of the lower-cased passwords of admissible length.
+    `pretrained`: the lines of a --multiword word list, learned before the passwords: a run seen there for the first time counts as seen `threshold` times."""
     t = Counter()
-    for pw in history:
+    for first, pw in [(True, w) for w in pretrained] + [(False, w) for w in history]:
         if len(pw) < min_len or len(pw) > max_len:
             continue
         run = ''
@@ -295,7 +296,7 @@ def mw_tally(history, min_len=4, max_len=21):
                 run += ch
             else:
                 if len(run) >= min_len:
-                    t[run] += 1
+                    t[run] = threshold if (first and t[run] == 0) else t[run] + 1
                 run = ''
     return t
 
